@@ -306,6 +306,13 @@ def check_config(cfg, ops, tmp, ls):
                 attempts.setdefault(i, list(before))
             missing = [h for h in sec["handlers"] if h["path"] == "MISSINGDIR" and not os.path.isdir(os.path.dirname(h["path_text"]))
                        and (h.get("delay") or "").lower() not in ("yes", "true", "on")]
+            if first:
+                # the logger (and a descendant) has been used before it is configured, as
+                # libraries do while they are imported
+                for lv in (5, 10, 20, 30, 40, 50):
+                    target.isEnabledFor(lv)
+                    if target is not root:
+                        logging.getLogger(target.name + ".zcvchild").isEnabledFor(lv)
             try:
                 if kind == "startup":
                     fac.startup()          # "make sure we've instantiated the logger"
@@ -327,6 +334,16 @@ def check_config(cfg, ops, tmp, ls):
             want_level = ref_level(sec["level"]) if sec.get("level") is not None else 20
             if lg.level != want_level:
                 out.append(("wrong-logger-level", "level %r gives %r expected %r" % (sec.get("level"), lg.level, want_level)))
+            else:
+                # ... and the logger acts on it
+                for lg_ in [lg] + ([logging.getLogger(lg.name + ".zcvchild")] if lg is not root else []):
+                    eff = lg_.getEffectiveLevel()
+                    acts = [lv for lv in (5, 10, 20, 30, 40, 50) if lg_.isEnabledFor(lv)]
+                    want_acts = [lv for lv in (5, 10, 20, 30, 40, 50) if lv >= eff and lv > logging.root.manager.disable]
+                    if acts != want_acts:
+                        out.append(("logger-does-not-act-on-its-level", "level %r: %s enabled for %r, expected %r"
+                                    % (sec.get("level"), "logger" if lg_ is lg else "a descendant", acts, want_acts)))
+                        break
             if sec["type"] == "logger":
                 wantp = True if sec.get("propagate") is None else sec["propagate"].lower() in ("yes", "true", "on")
                 if bool(lg.propagate) != wantp:
